@@ -73,7 +73,7 @@ HARNESSES = [
     {"fn": "h_short", "cases": ["any24", "PH16"], "opt": True, "timeout": {"quick": 60, "thorough": 300}},
     {"fn": "h_trunc", "cases": TRUNC, "quick_cases": QUICK_TRUNC, "opt": True, "timeout": {"quick": 90, "thorough": 300}},
     {"fn": "h_corrupt", "cases": [c for c in CORR if c not in CORR_OPT], "quick_cases": [c for c in QUICK_CORR if c not in CORR_OPT],
-     "timeout": {"quick": 90, "thorough": 400}},
+     "timeout": {"quick": 90, "thorough": 800}},
     {"fn": "h_corrupt", "cases": CORR_OPT, "quick_cases": [c for c in QUICK_CORR if c in CORR_OPT], "opt": True,
      "timeout": {"quick": 90, "thorough": 400}},
     {"fn": "h_cli", "cases": ["trunc:P1", "junk", "good:P1", "corrupt:P2", "corrupt:P2:214", "corrupt:P9:pe", "trunc:P5"],
